@@ -34,6 +34,17 @@ static unsigned long flags0_word[MAXT]; static long int0;
 /* targets: every one an unsigned-long sized cell between two guard words, all inside one heap block */
 typedef struct { unsigned long g0, v, g1; } cell_t;
 static cell_t *cells;            /* [0] = shared boolean word, [1 + j] = target of option j */
+/* An INTEGER option's target is an int (handle_integer stores through an int pointer): the int lives in the first
+ * sizeof(int) bytes of the cell and the REST of the cell is a guard of its own, so a store of any other width
+ * ("strtol returns a long") is a write beyond the target even when the value it carries is right. */
+#define INT_TAIL 0xA5
+static void set_int_cell(cell_t *c, int v) { memset(&c->v, INT_TAIL, sizeof(c->v)); memcpy(&c->v, &v, sizeof(v)); }
+static int int_of_cell(const cell_t *c) { int v; memcpy(&v, &c->v, sizeof(v)); return v; }
+static int int_tail_ok(const cell_t *c) {
+    const unsigned char *p = (const unsigned char *) &c->v; size_t k;
+    for (k = sizeof(int); k < sizeof(c->v); k++) if (p[k] != INT_TAIL) return 0;
+    return 1;
+}
 static spifopt_t *table;
 static int cur_tb = -1, nopt;
 static char **av, **orig; static int ac;
@@ -98,7 +109,7 @@ static void setup(int tb, const char *argvtok) {
         o->mask = 0; o->value = &cells[1 + j].v;
         switch (d->kind) {
             case K_BOOL: fl = SPIFOPT_FLAG_BOOLEAN; o->value = &cells[0].v; o->mask = (spif_uint32_t) (1UL << d->bit); break;
-            case K_INT:  fl = SPIFOPT_FLAG_INTEGER; cells[1 + j].v = (unsigned long) int0; break;
+            case K_INT:  fl = SPIFOPT_FLAG_INTEGER; set_int_cell(&cells[1 + j], (int) int0); break;
             case K_STR:  fl = SPIFOPT_FLAG_STRING; break;
             case K_ARGS: fl = SPIFOPT_FLAG_ARGLIST; break;
             case K_ABST:
@@ -217,6 +228,12 @@ static const char *vh_step(const vh_step_t *st, vh_sb *ret, vh_sb *state) {
             return invmsg;
         }
     }
+    for (j = 0; j < nopt; j++) {
+        if (defs[cur_tb][j].kind == K_INT && !int_tail_ok(&cells[1 + j])) {
+            snprintf(invmsg, sizeof(invmsg), "write_beyond_the_int_target_%d", j);
+            return invmsg;
+        }
+    }
     sb_puts(state, "{argv=[");
     for (k = 1; k <= ac; k++) {
         int m, known = 0;
@@ -234,7 +251,9 @@ static const char *vh_step(const vh_step_t *st, vh_sb *ret, vh_sb *state) {
         odef_t *d = &defs[cur_tb][j]; unsigned long v = cells[1 + j].v;
         if (j) sb_putc(state, ',');
         switch (d->kind) {
-            case K_INT: case K_CNT:
+            case K_INT:
+                sb_printf(state, "{has=F,n=%ld,s=[],ws=[]}", (long) int_of_cell(&cells[1 + j])); break;
+            case K_CNT:
                 sb_printf(state, "{has=F,n=%ld,s=[],ws=[]}", (long) v); break;
             case K_STR:
                 if (!v) sb_puts(state, "{has=F,n=0,s=[],ws=[]}");
